@@ -227,7 +227,7 @@ def main(argv: list[str] | None = None) -> int:
         "violations": len(new_viol),
     }
     edir = OUT_ROOT / "evidence"
-    edir.mkdir(exist_ok=True)
+    edir.mkdir(parents=True, exist_ok=True)
     (edir / f"{prop}.json").write_text(json.dumps(evidence, indent=1, default=str) + "\n")
 
     # ---- report ------------------------------------------------------------
